@@ -545,6 +545,14 @@ result_t SingleDataField::create(const string& name, const map<string, string>& 
     }
   }
   if (!constantValue.empty()) {
+    if (dataType->isNumeric() && (bitCount % 8) != 0) {  // constant on a bit type: use the given bit count
+      const NumberDataType* numType = reinterpret_cast<const NumberDataType*>(dataType);
+      result_t result = numType->derive(divisor, bitCount, &numType);
+      if (result != RESULT_OK) {
+        return result;
+      }
+      dataType = numType;
+    }
     *returnField = new ConstantDataField(name, attributes, dataType, partType, byteCount, constantValue, verifyValue);
     return RESULT_OK;
   }
